@@ -2261,7 +2261,7 @@ class Transport(threading.Thread, ClosingContextManager):
                         # message type" message (unless the message type was
                         # itself literally MSG_UNIMPLEMENTED, in which case, we
                         # just shut up to avoid causing a useless loop).
-                        name = MSG_NAMES[ptype]
+                        name = MSG_NAMES.get(ptype, f"msg {ptype}")
                         warning = "Oops, unhandled type {} ({!r})".format(
                             ptype, name
                         )
